@@ -431,6 +431,18 @@ pub fn run_property(prop: &Prop, cfg: &RunCfg) -> i32 {
         }
     }
 
+    // safety net only: budgets are case counts, but a harness or library hang must not block forever.
+    // Hitting it is "inconclusive" (exit 2), never a violation.
+    {
+        let limit = std::time::Duration::from_secs(if cfg.thorough { 6 * 3600 } else { 20 * 60 });
+        let id = prop.id;
+        std::thread::spawn(move || {
+            std::thread::sleep(limit);
+            println!("{}: wall-clock watchdog ({} s) hit — inconclusive, not a violation", id, limit.as_secs());
+            std::process::exit(2);
+        });
+    }
+
     // 2. generated search
     let total = cfg.cases_override.unwrap_or(if cfg.thorough { prop.thorough } else { prop.quick });
     let workers = cfg.workers.max(1) as u64;
